@@ -48,7 +48,7 @@ ASSUMPTIONS = [
     "variable names never collide with launch or package variable names (precedence between them is not in the "
     "statement); launch values contain no '$' and no '%'; package values contain no '%' and no '$$'",
     "no two spellings of the same environment name on one platform",
-    "DEFAULTS of an interpreter-less default/named environment is processed as documented in environmentWithName "
+    "the DEFAULTS directive is processed as documented in environmentWithName "
     "(names missing from the launch environment are ignored; a variable that is both listed in DEFAULTS and defined "
     "has references to itself replaced by the launch value)",
 ]
